@@ -46,6 +46,15 @@ fn play(src: &str, ops: &[String]) -> serde_json::Value {
         if let Some(var) = op.strip_prefix("o:") {
             if let Err(e) = story.observe_variable(var, Rc::new(RefCell::new(Obs { log: notes.clone() }))) { result = format!("err:{e}"); }
             notes.borrow_mut().push("|".into());
+        } else if let Some(n) = op.strip_prefix("rf:") {
+            if let Err(e) = story.remove_flow(n) { result = format!("err:{e}"); }
+        } else if let Some(n) = op.strip_prefix("sf:") {
+            if let Err(e) = story.switch_flow(n) { result = format!("err:{e}"); }
+        } else if let Some(n) = op.strip_prefix("cps:") {
+            if let Err(e) = story.choose_path_string(n, true, None) { result = format!("err:{e}"); }
+        } else if let Some(n) = op.strip_prefix("set:") {
+            let (k, v) = n.split_once('=').unwrap();
+            if let Err(e) = story.set_variable(k, &bladeink::value_type::ValueType::Int(v.parse().unwrap())) { result = format!("err:{e}"); }
         } else if op == "r" {
             if let Err(e) = story.reset_state() { result = format!("err:{e}"); }
         } else if op == "h" {
